@@ -44,7 +44,7 @@ func (h vdSrcHandle) Read(p []byte) (int, error) {
 	o := h.o
 	if o.fault == vdFaultRead {
 		o.observed = true
-		return 0, vErrInjected
+		return 0, vInjected()
 	}
 	if o.pos >= len(o.data) {
 		return 0, io.EOF
@@ -57,7 +57,7 @@ func (h vdSrcHandle) Close() error {
 	h.o.closed++
 	if h.o.fault == vdFaultReadClose {
 		h.o.observed = true
-		return vErrInjected
+		return vInjected()
 	}
 	return nil
 }
@@ -89,7 +89,7 @@ func (b *vdSrcBucket) Get(ctx context.Context, path string) (ReadObjectCloser, e
 	o.gets++
 	if o.fault == vdFaultGet {
 		o.observed = true
-		return nil, vErrInjected
+		return nil, vInjected()
 	}
 	return vdSrcHandle{o}, nil
 }
@@ -107,7 +107,7 @@ func (b *vdSrcBucket) Walk(ctx context.Context, prefix string, f func(ObjectInfo
 	}
 	if b.walkFail {
 		vFaultObserved = true
-		return vErrInjected
+		return vInjected()
 	}
 	return nil
 }
@@ -125,12 +125,12 @@ func (w *vdDstObj) Write(p []byte) (int, error) {
 	switch w.src.fault {
 	case vdFaultWrite:
 		w.src.observed = true
-		return 0, vErrInjected
+		return 0, vInjected()
 	case vdFaultShortWrite:
 		if len(p) > 0 {
 			w.src.observed = true
 			w.wrote = append(w.wrote, p[:len(p)-1]...)
-			return len(p) - 1, vErrInjected
+			return len(p) - 1, vInjected()
 		}
 	}
 	w.wrote = append(w.wrote, p...)
@@ -140,14 +140,14 @@ func (w *vdDstObj) Close() error {
 	w.closed++
 	if w.src.fault == vdFaultWriteClose {
 		w.src.observed = true
-		return vErrInjected
+		return vInjected()
 	}
 	return nil
 }
 func (w *vdDstObj) SetExternalPath(p string) error {
 	if w.src.fault == vdFaultSetExt {
 		w.src.observed = true
-		return vErrInjected
+		return vInjected()
 	}
 	w.ext = p
 	return nil
@@ -169,7 +169,7 @@ func (b *vdDstBucket) Put(ctx context.Context, path string, opts ...PutOption) (
 	}
 	if o.fault == vdFaultPut {
 		o.observed = true
-		return nil, vErrInjected
+		return nil, vInjected()
 	}
 	w := &vdDstObj{src: o, atomic: NewPutOptions(opts).Atomic()}
 	b.objs[path] = w
@@ -198,7 +198,7 @@ func vdContent() string {
 // in the destination, closed exactly once; (3) nil error ⇒ count = number of objects.
 // Param EXACT=1 (used for OBJS=3): exactly OBJS objects of exactly DATA bytes, and the three option booleans tied together.
 func VerifLemma_C15B_ParallelCopy() {
-	vFaultObserved = false
+	vReset()
 	n := verifNondetChoice(verifParam("OBJS")) + 1
 	if verifParam("EXACT") == 1 {
 		n = verifParam("OBJS")
@@ -207,7 +207,7 @@ func VerifLemma_C15B_ParallelCopy() {
 	names := []string{"a", "b/c", "d"}
 	src := &vdSrcBucket{walkFail: verifNondetBool(), walkRev: verifNondetBool()}
 	copyExt, atomic := src.walkRev, src.walkRev
-	if verifParam("EXACT") != 1 {
+	if verifParam("EXACT") != 1 && verifParam("TIEOPTS") != 1 {
 		copyExt, atomic = verifNondetBool(), verifNondetBool()
 	}
 	for i := 0; i < n; i++ {
@@ -256,7 +256,7 @@ func VerifLemma_C15B_ParallelCopy() {
 	if anyObserved {
 		verifCover("some object failed")
 		verifAssert(err != nil, "Copy: an injected failure seen by the code is reported")
-		verifAssert(errors.Is(err, vErrInjected), "Copy: the injected error is in the returned chain")
+		verifAssert(vIsInjected(err), "Copy: the injected error is in the returned chain")
 	} else {
 		verifAssert(err == nil, "Copy: no failure, no error")
 	}
